@@ -1257,6 +1257,10 @@ struct Local {
     struct_cases: u64,
     a5_sensitive: u64,
     b5_sensitive: u64,
+    order_cases: u64,
+    a6_sensitive: u64,
+    loop_cases: u64,
+    b6_sensitive: u64,
 }
 impl Local {
     fn arm(&mut self, a: &str) {
@@ -2321,6 +2325,11 @@ enum Eff {
     EveryMulti { xs: Vec<usize>, val: V },
     /// `every x[p1], x[p2] = v`: the targets are written left to right
     EveryTargets { targets: Vec<(usize, Vec<Ix>)>, val: V },
+    /// plain assignment `x[base][<index expr>] (, ...) = <rhs> (, ...)`: ALL target index expressions are
+    /// evaluated first (left to right), then the right-hand sides, then the writes (bounds are checked then)
+    AssignOrder { targets: Vec<(usize, Vec<Ix>, Ex)>, rhs: Vec<Ex>, every: bool },
+    /// two effects of one statement, in this order
+    Both(Box<Eff>, Box<Eff>),
     Op { x: usize, path: Vec<Ix>, op: Op, rhs: V },
     EveryOp { x: usize, path: Vec<Ix>, op: Op, rhs: V },
     Extract { kind: Ext, y: usize, x: usize, path: Vec<Ix> },
@@ -2335,6 +2344,119 @@ enum Eff {
     Unpack { xs: Vec<usize>, vals: Vec<V> },
     /// `(x[path] = dflt) op= rhs`
     WithDefault { x: usize, path: Vec<Ix>, dflt: DefaultE, op: Op, rhs: V },
+}
+/// small expressions over whole variables that read or mutate state (family ref:assign-order)
+#[derive(Clone, Debug)]
+enum Ex {
+    Var(usize),
+    /// `qq[i]`
+    At(usize, i64),
+    /// `len(qq) - 1`
+    LenM1(usize),
+    /// `len(qq)`
+    Len(usize),
+    /// `pop qq`
+    Pop(usize),
+    /// `remove qq[0]`
+    Rem0(usize),
+    /// `consume qq`
+    Consume(usize),
+    /// `(qi += k; qi)`
+    Bump(usize, i64),
+    /// `(qi = a; b)`
+    SetThen(usize, i64, i64),
+    /// `(qq append= a; b)`
+    AppThen(usize, i64, i64),
+    /// `cgN()`
+    Call(usize),
+}
+impl Ex {
+    fn src(&self) -> String {
+        match self {
+            Ex::Var(q) => VARS[*q].to_string(),
+            Ex::At(q, i) => format!("{}[{}]", VARS[*q], i),
+            Ex::LenM1(q) => format!("len({}) - 1", VARS[*q]),
+            Ex::Len(q) => format!("len({})", VARS[*q]),
+            Ex::Pop(q) => format!("(pop {})", VARS[*q]),
+            Ex::Rem0(q) => format!("(remove {}[0])", VARS[*q]),
+            Ex::Consume(q) => format!("(consume {})", VARS[*q]),
+            Ex::Bump(q, k) => format!("({} += {}; {})", VARS[*q], k, VARS[*q]),
+            Ex::SetThen(q, a, b) => format!("({} = {}; {})", VARS[*q], a, b),
+            Ex::AppThen(q, a, b) => format!("({} append= {}; {})", VARS[*q], a, b),
+            Ex::Call(g) => format!("{}()", UPDS[*g]),
+        }
+    }
+    fn mutates(&self) -> bool {
+        !matches!(self, Ex::Var(_) | Ex::At(..) | Ex::LenM1(_) | Ex::Len(_))
+    }
+}
+fn eval_ex(st: &mut Store, e: &Ex) -> Option<R<V>> {
+    let flag = |o: Option<bool>, v: &dyn Fn(&Store) -> V, st: &Store| -> Option<R<V>> {
+        match o? {
+            true => Some(Ok(v(st))),
+            false => Some(Err(())),
+        }
+    };
+    match e {
+        Ex::Var(q) => Some(Ok(st.vars[*q].clone())),
+        Ex::At(q, i) => Some(index(&st.vars[*q], &Ix::I(*i))),
+        Ex::LenM1(q) | Ex::Len(q) => match &st.vars[*q] {
+            V::List(xs) => Some(Ok(V::Int(xs.len() as i64 - if matches!(e, Ex::LenM1(_)) { 1 } else { 0 }))),
+            _ => None,
+        },
+        Ex::Pop(q) => Some(modify(&mut st.vars[*q], &[], &mut pop_leaf)),
+        Ex::Rem0(q) => Some(modify(&mut st.vars[*q], &[], &mut |s| remove_leaf(s, &Ix::I(0)))),
+        Ex::Consume(q) => Some(modify(&mut st.vars[*q], &[], &mut take_leaf)),
+        Ex::Bump(q, k) => {
+            let o = st_op(&mut st.vars, *q, &[], Op::Plus, &V::Int(*k));
+            let q = *q;
+            flag(o, &move |s: &Store| s.vars[q].clone(), st)
+        }
+        Ex::SetThen(q, a, b) => Some(assign_into(&mut st.vars, *q, &[], V::Int(*a)).map(|_| V::Int(*b))),
+        Ex::AppThen(q, a, b) => {
+            let o = st_op(&mut st.vars, *q, &[], Op::Append, &V::Int(*a));
+            let b = *b;
+            flag(o, &move |_s: &Store| V::Int(b), st)
+        }
+        Ex::Call(g) => eval_mrhs(st, &MutRhs::Call { g: *g }),
+    }
+}
+fn apply_assign_order(st: &mut Store, targets: &[(usize, Vec<Ix>, Ex)], rhs: &[Ex], every: bool) -> Option<bool> {
+    let mut idxs = vec![];
+    let mut vals = vec![];
+    // wrong variant 5 (seeded a6): the right-hand side runs BEFORE the target's index expressions
+    let phases = if wrong() == 5 { [false, true] } else { [true, false] };
+    for idx_phase in phases {
+        if idx_phase {
+            for t in targets {
+                match eval_ex(st, &t.2)? {
+                    Ok(v) => idxs.push(v),
+                    Err(()) => return Some(false),
+                }
+            }
+        } else {
+            for r in rhs {
+                match eval_ex(st, r)? {
+                    Ok(v) => vals.push(v),
+                    Err(()) => return Some(false),
+                }
+            }
+        }
+    }
+    for (i, (x, base, _)) in targets.iter().enumerate() {
+        let ix = match &idxs[i] {
+            V::Int(n) => Ix::I(*n),
+            V::Str(s) => Ix::K(s.clone()),
+            _ => return None,
+        };
+        let mut p = base.clone();
+        p.push(ix);
+        // bounds / kinds are checked at write time, after the right-hand side ran
+        if set_index(&mut st.vars[*x], &p, Some(vals[i].clone()), every).is_err() {
+            return Some(false);
+        }
+    }
+    Some(true)
 }
 #[derive(Clone, Debug)]
 enum DefaultE {
@@ -2422,6 +2544,11 @@ fn apply(eff: &Eff, st: &mut Store) -> Option<bool> {
             }
             Some(true)
         }
+        Eff::AssignOrder { targets, rhs, every } => apply_assign_order(st, targets, rhs, *every),
+        Eff::Both(a, b) => match apply(a, st)? {
+            true => apply(b, st),
+            false => Some(false),
+        },
         Eff::Op { x, path, op, rhs } => st_op(&mut st.vars, *x, path, *op, rhs),
         Eff::EveryOp { x, path, op, rhs } => st_every_op(&mut st.vars, *x, path, *op, rhs),
         Eff::Extract { kind, y, x, path } => Some(st_extract(&mut st.vars, *kind, *y, *x, path)),
@@ -2968,6 +3095,257 @@ fn gen_struct(rng: &mut Rng, st: &Store, _ill: bool) -> Option<BGen> {
         }
     }
 }
+
+/// a helper assignment that gives the history an int list / a small int to index with
+fn make_helper(rng: &mut Rng, st: &Store, want_list: bool, avoid: Option<usize>) -> Option<BGen> {
+    let nv = st.vars.len();
+    let e = if want_list {
+        let n = rng.range(2, 4);
+        let xs: Vec<i64> = (0..n).map(|_| rng.range(0, 2)).collect();
+        E { src: format!("[{}]", xs.iter().map(|x| x.to_string()).collect::<Vec<_>>().join(", ")), val: V::List(xs.into_iter().map(V::Int).collect()), alias: false }
+    } else {
+        lit(V::Int(rng.range(0, 2)))
+    };
+    let y = (0..nv).map(|_| rng.below(nv as u64) as usize).find(|y| Some(*y) != avoid && ty_of(*y).accepts(&e.val))?;
+    Some(BGen {
+        src: format!("{} = {}", VARS[y], e.src),
+        key: "ref:assign",
+        form: "assign".into(),
+        kind: e.val.kind(),
+        probe: vec![],
+        copies_container: false,
+        eff: Eff::AssignVal { y, val: Ok(e.val) },
+    })
+}
+/// plain assignments whose target index expression reads state that the right-hand side mutates (or the
+/// converse): pins "target index expressions first, left to right, then the right-hand side"
+fn gen_assign_order(rng: &mut Rng, st: &Store, _ill: bool) -> Option<BGen> {
+    let nv = st.vars.len();
+    let int_lists: Vec<usize> = (0..nv).filter(|i| matches!(&st.vars[*i], V::List(l) if l.len() >= 2 && l.iter().all(|e| matches!(e, V::Int(n) if (-3..=6).contains(n))))).collect();
+    let ints: Vec<usize> = (0..nv).filter(|i| matches!(&st.vars[*i], V::Int(n) if (-2..=4).contains(n))).collect();
+    if int_lists.is_empty() {
+        return make_helper(rng, st, true, ints.first().copied());
+    }
+    let qq = int_lists[rng.below(int_lists.len() as u64) as usize];
+    if ints.is_empty() && rng.chance(1, 2) {
+        return make_helper(rng, st, false, Some(qq));
+    }
+    let qi = if ints.is_empty() { None } else { Some(ints[rng.below(ints.len() as u64) as usize]) };
+    // targets: a list or dict at depth 0..1 of any variable (also of qq itself)
+    let mut conts: Vec<(usize, Pos)> = vec![];
+    for x in 0..nv {
+        for p in positions(&st.vars[x], rng) {
+            if !p.virt && p.path.len() <= 1 && matches!(p.kind, Kind::List | Kind::Dict | Kind::DictD) && (p.kind != Kind::List || p.len > 0) {
+                conts.push((x, p));
+            }
+        }
+    }
+    if conts.is_empty() {
+        return None;
+    }
+    let idx_ex = |rng: &mut Rng| -> Ex {
+        loop {
+            let e = match rng.below(8) {
+                0 | 1 => Ex::At(qq, -1),
+                2 => Ex::At(qq, 0),
+                3 => Ex::LenM1(qq),
+                4 => Ex::Pop(qq),
+                5 | 6 => match qi {
+                    Some(q) => {
+                        if rng.chance(1, 2) {
+                            Ex::Var(q)
+                        } else {
+                            Ex::Bump(q, 1)
+                        }
+                    }
+                    None => continue,
+                },
+                _ => Ex::LenM1(qq),
+            };
+            return e;
+        }
+    };
+    let rhs_ex = |rng: &mut Rng| -> Ex {
+        loop {
+            let e = match rng.below(11) {
+                0 | 1 => Ex::Pop(qq),
+                2 => Ex::Rem0(qq),
+                3 => Ex::Consume(qq),
+                4 => Ex::AppThen(qq, 0, rng.range(5, 9)),
+                5 => Ex::Len(qq),
+                6 | 7 => match qi {
+                    Some(q) => Ex::Bump(q, 1),
+                    None => continue,
+                },
+                8 => match qi {
+                    Some(q) => Ex::SetThen(q, 0, rng.range(5, 9)),
+                    None => continue,
+                },
+                9 => match qi {
+                    Some(q) => Ex::Var(q),
+                    None => continue,
+                },
+                _ => {
+                    if st.upds.is_empty() {
+                        continue;
+                    }
+                    Ex::Call(rng.below(st.upds.len() as u64) as usize)
+                }
+            };
+            return e;
+        }
+    };
+    let ntargets = if rng.chance(1, 6) { 2 } else { 1 };
+    let every = ntargets == 1 && rng.chance(1, 6);
+    let mut targets = vec![];
+    let mut rhs = vec![];
+    for _ in 0..ntargets {
+        let (x, pos) = conts[rng.below(conts.len() as u64) as usize].clone();
+        targets.push((x, pos.path.clone(), idx_ex(rng)));
+        rhs.push(rhs_ex(rng));
+    }
+    // at least one side must mutate what the other reads, else the order cannot matter
+    if !targets.iter().any(|t| t.2.mutates()) && !rhs.iter().any(|r| r.mutates()) {
+        return None;
+    }
+    let tsrc: Vec<String> = targets.iter().map(|(x, b, e)| format!("{}{}[{}]", VARS[*x], path_src(b), e.src())).collect();
+    let rsrc: Vec<String> = rhs.iter().map(|r| r.src()).collect();
+    let (x0, b0) = (targets[0].0, targets[0].1.clone());
+    let kind = get_path(&st.vars[x0], &b0).map(|v| v.kind()).unwrap_or(Kind::Null);
+    Some(BGen {
+        src: format!("{}{} = {}", if every { "every " } else { "" }, tsrc.join(", "), rsrc.join(", ")),
+        key: "ref:assign-order",
+        form: format!("assign-order({})", if every { "every" } else if ntargets == 2 { "unpack" } else { "plain" }),
+        kind,
+        probe: vec![(x0, b0)],
+        copies_container: false,
+        eff: Eff::AssignOrder { targets, rhs, every },
+    })
+}
+/// closures created in a `for` body: every iteration has its own scope, so each closure keeps its own
+/// loop variable / body-declared variable (one compound statement, the closures are called inside it)
+fn gen_loop_closure(rng: &mut Rng, st: &Store, _ill: bool) -> Option<BGen> {
+    let nv = st.vars.len();
+    let y = rng.below(nv as u64) as usize;
+    // the iterated list: a list variable or a literal
+    let list_vars: Vec<usize> = (0..nv).filter(|i| matches!(&st.vars[*i], V::List(l) if !l.is_empty() && l.len() <= 5)).collect();
+    let from_var = !list_vars.is_empty() && rng.chance(3, 5);
+    let (src_e, xs, xvar): (String, Vec<V>, Option<usize>) = if from_var {
+        let x = list_vars[rng.below(list_vars.len() as u64) as usize];
+        let V::List(l) = &st.vars[x] else { return None };
+        (VARS[x].to_string(), l.clone(), Some(x))
+    } else {
+        let n = rng.range(2, 3);
+        let rows = rng.chance(2, 3);
+        let es: Vec<E> = (0..n).map(|_| if rows { pure_lit(rng, 1) } else { gen_expr(rng, st, 1) }).collect();
+        (format!("[{}]", es.iter().map(|e| e.src.clone()).collect::<Vec<_>>().join(", ")), es.into_iter().map(|e| e.val).collect(), None)
+    };
+    if xs.iter().any(|v| v.has_opaque()) {
+        return None;
+    }
+    let all_lists = xs.iter().all(|v| matches!(v, V::List(_)));
+    // `v append= k` works on lists, vectors and bytes; anything else raises
+    let pushed = |v: &V, k: i64| -> R<V> { binop(Op::Append, v.clone(), &V::Int(k)).unwrap_or(Err(())) };
+    let call_all = "fs map (\\f -> f())";
+    let t = rng.below(10);
+    // (loop source, result expression, expected value, extra effect on the iterated variable, uses `<-`)
+    let (lp, res, val, extra, normal): (String, String, R<V>, Option<Eff>, bool) = match t {
+        0 | 1 => (format!("for (v <- {}) fs append= \\-> v", src_e), call_all.into(), Ok(V::List(xs.clone())), None, true),
+        2 => (
+            format!("for (v <- {}) (w := [v, v]; fs append= \\-> w)", src_e),
+            call_all.into(),
+            Ok(V::List(xs.iter().map(|v| V::List(vec![v.clone(), v.clone()])).collect())),
+            None,
+            true,
+        ),
+        3 => (
+            // the loop variable is changed AFTER the closure captured it: the closure shares the cell
+            format!("for (v <- {}) (fs append= \\-> v; v append= 0)", src_e),
+            call_all.into(),
+            xs.iter().map(|v| pushed(v, 0)).collect::<R<Vec<V>>>().map(V::List),
+            None,
+            true,
+        ),
+        4 => {
+            // closures that mutate their captured loop variable, called several times: one cell each
+            // only the first and the last closure are called
+            let first = pushed(&xs[0], 1);
+            let second = first.clone().and_then(|f| pushed(&f, 1));
+            let last = if xs.len() == 1 { second.clone().and_then(|s| pushed(&s, 1)) } else { pushed(&xs[xs.len() - 1], 1) };
+            (
+                format!("for (v <- {}) fs append= \\-> (v append= 1; v)", src_e),
+                "[fs[0](), fs[0](), fs[-1]()]".into(),
+                match (first, second, last) {
+                    (Ok(a), Ok(b), Ok(c)) => Ok(V::List(vec![a, b, c])),
+                    _ => Err(()),
+                },
+                None,
+                true,
+            )
+        }
+        5 => (
+            format!("for (v <<- {}) fs append= \\-> v", src_e),
+            call_all.into(),
+            Ok(V::List(xs.iter().enumerate().map(|(i, v)| V::List(vec![V::Int(i as i64), v.clone()])).collect())),
+            None,
+            false,
+        ),
+        6 => (
+            format!("for (v <- {}; w := [v]) fs append= \\-> w", src_e),
+            call_all.into(),
+            Ok(V::List(xs.iter().map(|v| V::List(vec![v.clone()])).collect())),
+            None,
+            true,
+        ),
+        7 => (
+            format!("for (i, v <<- {}) fs append= \\-> [i, v]", src_e),
+            call_all.into(),
+            Ok(V::List(xs.iter().enumerate().map(|(i, v)| V::List(vec![V::Int(i as i64), v.clone()])).collect())),
+            None,
+            false,
+        ),
+        8 => {
+            if xs.len() > 3 {
+                return None;
+            }
+            let mut out = vec![];
+            for a in &xs {
+                for b in &xs {
+                    out.push(V::List(vec![a.clone(), b.clone()]));
+                }
+            }
+            (format!("for (a <- {}; b <- {}) fs append= \\-> [a, b]", src_e, src_e), call_all.into(), Ok(V::List(out)), None, true)
+        }
+        _ => {
+            // the iterated variable is changed after the loop: the closures keep their own rows
+            let x = xvar?;
+            (
+                format!("for (v <- {}) fs append= \\-> v; {}[0] = 99", src_e, VARS[x]),
+                call_all.into(),
+                Ok(V::List(xs.clone())),
+                Some(Eff::Set { x, path: vec![Ix::I(0)], val: V::Int(99), every: false }),
+                true,
+            )
+        }
+    };
+    // with ONE scope for all iterations every closure would see the last element
+    let distinct = xs.windows(2).any(|w| w[0] != w[1]);
+    let sens = normal && xs.len() >= 2 && distinct && val.is_ok();
+    let assign = Eff::AssignVal { y, val };
+    let eff = match extra {
+        Some(e) => Eff::Both(Box::new(e), Box::new(assign)),
+        None => assign,
+    };
+    Some(BGen {
+        src: format!("{} = (\\-> (fs := []; {}; {}))()", VARS[y], lp, res),
+        key: "ref:loop-closure",
+        form: format!("loop-closure(t{}{})", t.min(9), if sens { ",sens" } else { "" }),
+        kind: if all_lists { Kind::List } else { Kind::Int },
+        probe: vec![],
+        copies_container: xs.iter().any(|v| v.is_container()),
+        eff,
+    })
+}
 /// statements that write a whole TYPED variable, mostly with a value its declared type rejects
 fn gen_typed(rng: &mut Rng, st: &Store, _ill: bool) -> Option<BGen> {
     let nv = st.vars.len();
@@ -3343,17 +3721,16 @@ fn gen_b(rng: &mut Rng, st: &Store, ill: bool) -> Option<BGen> {
     // keep the store populated with containers: there is nothing to alias or mutate in ints
     let ncont = st.vars.iter().filter(|v| v.is_container()).count();
     let form = if ncont == 0 || (ncont * 2 <= nv && rng.chance(1, 3)) { "assign" } else { form };
-    if form != "assign" && rng.chance(1, 5) {
-        return gen_rhsmut(rng, st, ill);
-    }
-    if form != "assign" && any_typed() && rng.chance(1, 6) {
-        return gen_typed(rng, st, ill);
-    }
-    if form != "assign" && rng.chance(1, 6) {
-        return gen_withdefault(rng, st, ill);
-    }
-    if form != "assign" && rng.chance(1, 3) {
-        return gen_struct(rng, st, ill);
+    if form != "assign" {
+        match rng.below(100) {
+            0..=15 => return gen_rhsmut(rng, st, ill),
+            16..=26 if any_typed() => return gen_typed(rng, st, ill),
+            27..=36 => return gen_withdefault(rng, st, ill),
+            37..=50 => return gen_struct(rng, st, ill),
+            51..=74 => return gen_assign_order(rng, st, ill),
+            75..=78 => return gen_loop_closure(rng, st, ill),
+            _ => {}
+        }
     }
     match form {
         "assign" => {
@@ -4054,6 +4431,22 @@ fn run_b_shard(mut rng: Rng, n_hist: usize, max_len: usize) -> Local {
                         loc.a4_sensitive += 1;
                     }
                 }
+                if matches!(g.eff, Eff::AssignOrder { .. }) {
+                    loc.order_cases += 1;
+                    set_wrong(5);
+                    let mut alt = store.clone();
+                    let alt_ok = apply(&g.eff, &mut alt);
+                    set_wrong(0);
+                    if alt_ok != Some(ok) || alt.vars != ns.vars {
+                        loc.a6_sensitive += 1;
+                    }
+                }
+                if g.key == "ref:loop-closure" {
+                    loc.loop_cases += 1;
+                    if g.form.contains(",sens") {
+                        loc.b6_sensitive += 1;
+                    }
+                }
                 if g.key.starts_with("ref:struct-") {
                     loc.struct_cases += 1;
                     for (w, is_a) in [(3u8, true), (4u8, false)] {
@@ -4295,6 +4688,7 @@ fn main() {
     let (mut order_sensitive, mut rhsmut_cases) = (0u64, 0u64);
     let (mut typed_cases, mut a4_sensitive, mut withdefault_cases, mut b4_sensitive) = (0u64, 0u64, 0u64, 0u64);
     let (mut struct_cases, mut a5_sensitive, mut b5_sensitive) = (0u64, 0u64, 0u64);
+    let (mut order_cases, mut a6_sensitive, mut loop_cases, mut b6_sensitive) = (0u64, 0u64, 0u64, 0u64);
     let mut samples = vec![];
     for (_, loc) in results {
         for (h, nt) in &loc.cases {
@@ -4336,6 +4730,10 @@ fn main() {
         struct_cases += loc.struct_cases;
         a5_sensitive += loc.a5_sensitive;
         b5_sensitive += loc.b5_sensitive;
+        order_cases += loc.order_cases;
+        a6_sensitive += loc.a6_sensitive;
+        loop_cases += loc.loop_cases;
+        b6_sensitive += loc.b6_sensitive;
         rhsmut_cases += loc.rhsmut_cases;
     }
     samples.truncate(12);
@@ -4360,6 +4758,14 @@ fn main() {
     rep.notes.push(format!(
         "statements through struct field accessors (ref:struct-*): {}; of these {} give a different result when writes accept a foreign accessor whose index is in range (sensitive to seeded change a5) and {} when pop/remove/consume compare structs by name (sensitive to seeded change b5)",
         struct_cases, a5_sensitive, b5_sensitive
+    ));
+    rep.notes.push(format!(
+        "plain assignments with state-reading / state-mutating target index expressions and right-hand sides (ref:assign-order): {}; of these {} give a different result when the right-hand side is evaluated before the target (sensitive to seeded change a6)",
+        order_cases, a6_sensitive
+    ));
+    rep.notes.push(format!(
+        "closures created in for-loop bodies (ref:loop-closure): {}; of these {} iterate >= 2 different elements with `<-` and would give a different result if all iterations shared one scope (sensitive to seeded change b6)",
+        loop_cases, b6_sensitive
     ));
     rep.notes.push(format!("threads: {}", threads));
     rep.notes.push("arm histogram: every case is counted twice, once under its statement form (`si:shared`, `ref:opassign(append):fail`) and once under depth (part A, `depth:d2:shared`) or the kind of the mutated container / copied value (part B, `kind:ddict:shared`)".to_string());
